@@ -1846,6 +1846,11 @@ def replace_pad_by_hw_pad(op: Operation, arch, nng) -> Operation:
             return op
         if pad_op.ifm.dtype != pad_op.ofm.dtype or not check_quantized_tens_scaling_equal(pad_op.ofm, pad_op.ifm):
             return op
+        if op.ifm_shapes[0].as_list() != pad_op.ofm_shapes[0].as_list():
+            # The operator no longer reads the PAD output in the shape the PAD writes it: fixup_strided_conv has folded the
+            # width into the depth (and re-shaped the kernel). The pads of the PAD operator count columns of the unfolded
+            # tensor, and the IFM shape of the operator cannot be replaced by that of the PAD's input.
+            return op
         top, left, bottom, right = get_pad_values_from_input(pad_op.inputs[1].values)
         k = op.kernel
         k_w, k_h = k.dilated_wh()
